@@ -235,7 +235,7 @@ def sequential(rec, shard, thorough, scale):
         r = _random.Random(shard + 17)
         times += [r.randrange(1, 1 << 32) for _ in range(200 if thorough else 40)]
         for t0 in times:
-            k.now = float(t0) + r.random() * 0.99
+            k.set_time(float(t0) + r.random() * 0.9)
             for low in (1, 0xfffff, r.randrange(1, 0xfffff)):
                 k.rng = ForcedRandom([low])
                 g = H.SequenceGenerator(int(k.now))
